@@ -444,6 +444,20 @@ def check_termination(obs):
                     side, len(har.opened[side]), len(har.closed[side]))))
             elif har.agent[side]._handlers:
                 out.append(('close', 'handler-leak', '%s agent still lists %d handlers' % (side, len(har.agent[side]._handlers))))
+    # (d') whenever a contact went away, for whatever reason and in whatever state (also before the session was
+    # established), the bundles queued on it and never started are reported, not silently dropped
+    have = set(item[1] for item in out)
+    for side in ('A', 'P'):
+        path = har.contact[side]
+        if path is None or path not in har.closed[side] or not har.node[side].alive or 'silently-lost' in have:
+            continue
+        closed_seq = max(item[0] for item in obs.signals[side] if item[3] == 'connection_closed' and item[4][0] == path)
+        started_ids = set(item[4][0] for item in obs.sig(side, 'send_bundle_started'))
+        finished_ids = set(item[4][0] for item in obs.sig(side, 'send_bundle_finished'))
+        for (qseq, tid, _tag, _body) in har.queued[side]:
+            if qseq < closed_seq and tid not in started_ids and tid not in finished_ids:
+                out.append(('unstarted', 'silently-lost', 'transfer %s queued at %s was neither started nor reported as not sent when the contact closed' % (tid, side)))
+                break
     return out
 
 
